@@ -248,6 +248,7 @@ func (s *FileStorage) Lock(ctx context.Context, name string) error {
 			// lockfile exists and is not stale;
 			// just wait a moment and try again,
 			// or return if context cancelled
+			emptyCount = 0 // it was read in full: empty reads count only when consecutive
 			select {
 			case <-time.After(fileLockPollInterval):
 			case <-ctx.Done():
